@@ -1,12 +1,12 @@
 #!/usr/bin/env python3
 """Confirm each seeded mutation in a scratch worktree (applies, builds, suite green, demo fails with / passes
 without) and run the checks of its property against it on /repo (apply, check, undo).
-Usage: eval_seeds.py confirm|check [IDs...]   Results: seeded/_results/<id>-<k>.json"""
+Usage: eval_seeds.py confirm|check [property ids...]   Results go into seeded/<id>-<k>/meta.json
+(confirmed_by_me / check_result). The evidence file a check run writes against a changed tree is
+restored from git afterwards: committed evidence only ever comes from the unchanged tree."""
 import json, os, shutil, subprocess, sys, glob, time
 ROOT = "/verif"
 ENV = dict(os.environ, GOFLAGS="-mod=mod", GOPROXY="off", GOSUMDB="off", GOTOOLCHAIN="local")
-RES = os.path.join(ROOT, "seeded", "_results")
-os.makedirs(RES, exist_ok=True)
 
 def sh(cmd, cwd=None, timeout=1800):
     p = subprocess.run(cmd, cwd=cwd, env=ENV, shell=True, stdout=subprocess.PIPE, stderr=subprocess.STDOUT, text=True, timeout=timeout)
@@ -14,11 +14,11 @@ def sh(cmd, cwd=None, timeout=1800):
 
 def seeds(ids):
     out = []
-    for d in sorted(glob.glob(os.path.join(ROOT, "seeded", "_incoming", "C*", "[0-9]"))):
-        pid = d.split("/")[-2]
+    for d in sorted(glob.glob(os.path.join(ROOT, "seeded", "C[0-9][0-9]-[0-9]"))):
+        pid, k = os.path.basename(d).split("-")
         if ids and pid not in ids:
             continue
-        out.append((pid, d.split("/")[-1], d))
+        out.append((pid, k, d))
     return out
 
 def confirm(ids):
@@ -29,11 +29,8 @@ def confirm(ids):
     try:
         for pid, k, d in seeds(ids):
             res = {"property": pid, "k": k}
-            notes = {}
-            try:
-                notes = json.load(open(os.path.join(d, "notes.json")))
-            except Exception as e:
-                res["notes_error"] = str(e)
+            meta = json.load(open(os.path.join(d, "meta.json")))
+            notes = {"demo_dir": meta["demonstration"].get("copy_to", "."), "demo_cmd": meta["demonstration"].get("command", "")}
             patch = os.path.join(d, "patch.diff")
             sh("git checkout -q -- . && git clean -fdq", cwd=wt)
             rc, out = sh("git apply %s" % patch, cwd=wt)
@@ -45,12 +42,11 @@ def confirm(ids):
             res["apply_how"] = how
             if rc != 0:
                 res["apply_out"] = out[-500:]
-                json.dump(res, open(os.path.join(RES, "%s-%s.json" % (pid, k)), "w"), indent=1)
+                meta["confirmed_by_me"].update({"applies": False})
+                json.dump(meta, open(os.path.join(d, "meta.json"), "w"), indent=1)
                 print(pid, k, "DOES NOT APPLY")
                 continue
             # save the diff as it applies to the current tree
-            rc, diff = sh("git diff", cwd=wt)
-            open(os.path.join(d, "patch.current.diff"), "w").write(diff)
             rc, out = sh("go build ./... && go vet -tags verif ./... >/dev/null 2>&1; go build -tags verif ./...", cwd=wt)
             res["builds"] = rc == 0
             rc, out = sh("go test -count=1 ./... 2>&1 | tail -8", cwd=wt)
@@ -70,7 +66,8 @@ def confirm(ids):
             res["demo_without_tail"] = out2[-300:]
             os.remove(dst)
             res["confirmed"] = bool(res["builds"] and res["suite_passes"] and res["demo_fails_with_patch"] and res["demo_passes_without_patch"])
-            json.dump(res, open(os.path.join(RES, "%s-%s.json" % (pid, k)), "w"), indent=1)
+            meta["confirmed_by_me"].update({x: res[x] for x in ("applies", "builds", "suite_passes", "demo_fails_with_patch", "demo_passes_without_patch")})
+            json.dump(meta, open(os.path.join(d, "meta.json"), "w"), indent=1)
             print(pid, k, "confirmed" if res["confirmed"] else "NOT CONFIRMED", {x: res[x] for x in ("builds", "suite_passes", "demo_fails_with_patch", "demo_passes_without_patch")})
     finally:
         sh("git -C /repo worktree remove --force %s" % wt)
@@ -79,11 +76,9 @@ def check(ids, extra_props=None):
     rc, out = sh("git -C /repo status --porcelain")
     assert out.strip() == "", "repo dirty: " + out
     for pid, k, d in seeds(ids):
-        rf = os.path.join(RES, "%s-%s.json" % (pid, k))
-        res = json.load(open(rf)) if os.path.exists(rf) else {"property": pid, "k": k}
-        patch = os.path.join(d, "patch.current.diff")
-        if not os.path.exists(patch):
-            patch = os.path.join(d, "patch.diff")
+        meta = json.load(open(os.path.join(d, "meta.json")))
+        res = {}
+        patch = os.path.join(d, "patch.diff")
         rc, out = sh("git -C /repo apply %s" % patch)
         if rc != 0:
             print(pid, k, "patch does not apply to /repo")
@@ -98,8 +93,12 @@ def check(ids, extra_props=None):
             res["caught_with_input"] = res["caught"] and "no-failing-input-found" not in out
         finally:
             sh("git -C /repo checkout -- . && git -C /repo clean -fdq")
-        json.dump(res, open(rf, "w"), indent=1)
-        sh("%s/run/verifh gen" % ROOT)   # bring coq/Gen back in line with the restored tree
+        first = [l for l in out.splitlines() if l.startswith("VIOLATION")]
+        meta["check_result"].update({"caught": res.get("caught"), "with_failing_input": res.get("caught_with_input"),
+                                     "violation_line": first[0] if first else None, "seconds": res.get("check_s")})
+        json.dump(meta, open(os.path.join(d, "meta.json"), "w"), indent=1)
+        sh("git -C %s checkout -- evidence/%s.json" % (ROOT, pid))
+        sh("%s/run/verifh gen /repo %s/coq/Gen" % (ROOT, ROOT))   # bring coq/Gen back in line with the restored tree
         print(pid, k, "CAUGHT" if res.get("caught") else "MISSED", "(with input)" if res.get("caught_with_input") else "", res.get("check_s"))
 
 if __name__ == "__main__":
